@@ -670,13 +670,36 @@ func (s *asmState) run(fn *asmFunc) {
 				r[k], r[k+1] = Extract(31, 0, d), Extract(63, 32, d)
 			}
 			s.setVec(in, A[2], r, true)
-		case "VPSRAD":
+		case "VPSRAD", "VPSRLD", "VPSLLD":
 			im := s.imm(in, A[0])
 			n := lanesOf(A[2])
 			x := s.srcLanes(in, A[1], n)
 			r := make([]*T, n)
+			op := map[string]string{"VPSRAD": "bvashr", "VPSRLD": "bvlshr", "VPSLLD": "bvshl"}[in.op]
 			for k := range r {
-				r[k] = Bin("bvashr", x[k], BV(32, uint64(im)))
+				if im >= 32 && in.op != "VPSRAD" {
+					r[k] = BV(32, 0)
+				} else {
+					r[k] = Bin(op, x[k], BV(32, uint64(min(im, 31))))
+				}
+			}
+			s.setVec(in, A[2], r, true)
+		case "VPAND", "VPOR", "VPXOR", "VANDPS", "VORPS", "VXORPS", "VPANDN", "VANDNPS":
+			n := lanesOf(A[2])
+			y := s.srcLanes(in, A[0], n)
+			x := s.srcLanes(in, A[1], n)
+			r := make([]*T, n)
+			for k := range r {
+				switch in.op {
+				case "VPAND", "VANDPS":
+					r[k] = Bin("bvand", x[k], y[k])
+				case "VPOR", "VORPS":
+					r[k] = Bin("bvor", x[k], y[k])
+				case "VPXOR", "VXORPS":
+					r[k] = Bin("bvxor", x[k], y[k])
+				default: // ANDN: (NOT src1) AND src2
+					r[k] = Bin("bvand", Bin("bvxor", x[k], BV(32, 0xffffffff)), y[k])
+				}
 			}
 			s.setVec(in, A[2], r, true)
 		case "VCVTDQ2PS":
